@@ -4,7 +4,7 @@
    Section hypotheses of the lemmas (assumptions, not axioms): a backend batch is atomic (the database
    only ever is [apply_all] of a prefix of the batch list); executing a block is a function of state
    and block ([exec]); a header-hash page holds more than one hash. *)
-From NG Require Import Common.Tactics Node.Crash Node.CrashProofs Node.Stages Node.StagesProofs Node.StagesWitness Node.StagesMain.
+From NG Require Import Common.Tactics Node.Crash Node.CrashProofs Node.Stages Node.StagesProofs Node.StagesWitness Node.StagesMain Node.CrashGC Node.CrashGCProofs Node.CrashGCWitness Node.ResetExact.
 Open Scope N_scope.
 
 Section C02.
@@ -147,3 +147,72 @@ Example C02_jump_example :
   map (fun k => is_up (wjboot fixes_all (wjafter k))) [0; 1; 2; 3; 4]%nat = [true; true; true; true; true] /\
   is_stuck (wjboot fixes_none (wjafter 0)) = true.
 Proof. split; [exact jump_window_all|exact (proj1 jump_window_none)]. Qed.
+
+(* ---- the full collector: untraceable blocks and header-hash pages (Node/CrashGC.v) ----
+   For every run with collector runs in any position (block records below the target deleted through the write
+   cache, header-hash pages by a commit of their own, repaired page bound F48) and every number k of batches
+   on disk: start-up succeeds at a height not above the last accepted block, and the database holds from some
+   [low] on exactly the records of that height (InvG: tip and header pointers, block/header records from low,
+   every state root up to the height, the history's state, the pages from plow, with
+   low <= first re-walked header and plow <= last complete page). *)
+Theorem C02_gc_keeps_recoverable :
+  forall (St Rt : Type) (exec : St -> N -> St) (root : St -> Rt) (genesis : St) (ntx : N -> N)
+         (PS gcp mtb : N) (gc_set : N -> list N),
+    1 < PS -> 0 < gcp ->
+    forall ops g bs k,
+      grun St Rt exec root ntx PS gcp mtb gc_set true (mkG (fresh St Rt root genesis ntx) 0 0) ops = (g, bs) ->
+      exists nk, recover St Rt root genesis ntx PS 0 (crash bs k) = RNode nk /\
+                 height nk <= height (g_node g) /\
+                 (Empty (crash bs k) \/
+                  exists low plow, InvG exec root genesis PS (crash bs k) false (height nk) (hheight nk) low plow).
+Proof. exact (@gc_keeps_recoverable). Qed.
+Print Assumptions C02_gc_keeps_recoverable.
+
+(* the collector of the pinned code (F48) removes the page start-up needs when MaxTraceableBlocks is below
+   the page size: a run after which the database cannot be re-opened; the same run with the repair can *)
+Theorem C02_gc_unrepaired_refuted :
+  gw_reopens false 21 = false /\ gw_reopens false 20 = true /\
+  forallb (gw_reopens true) (seq 0 (S (length (snd (gw_run true))))) = true.
+Proof. exact gc_unrepaired_refuted. Qed.
+Print Assumptions C02_gc_unrepaired_refuted.
+
+(* ---- reset_indistinguishable, exactly (Node/ResetExact.v) ----
+   [node_db p h hh] is, key by key, the database of a node at height h with headers up to hh; the model's
+   uninterrupted archival node holds exactly it after any sequence of headers, blocks and flushes: *)
+Theorem C02_run_full :
+  forall (St Rt : Type) (exec : St -> N -> St) (root : St -> Rt) (genesis : St) (ntx : N -> N)
+         (PS gcp mtb : N) (gc_set : N -> list N),
+    1 < PS ->
+    forall ops n n' bs,
+      FullN exec root genesis ntx PS n ->
+      run St Rt exec root ntx PS false gcp mtb gc_set n ops = (n', bs) ->
+      FullN exec root genesis ntx PS n'.
+Proof. exact (@run_full). Qed.
+Print Assumptions C02_run_full.
+
+(* After Reset(h) of such a node (height c, headers to hh, any code variant) the database equals the database
+   of a node that only ever synchronised to h - on EVERY key except the trie nodes first written by the
+   removed blocks (h, c], i.e. DataMPT entries that no retained root (heights <= h) can reach ... *)
+Theorem C02_reset_indistinguishable :
+  forall (St Rt : Type) (exec : St -> N -> St) (root : St -> Rt) (genesis : St) (ntx : N -> N) (PS : N)
+         (unroot : Rt -> St) (fx : fixes),
+    1 < PS -> (forall j, unroot (root (st_at St exec genesis j)) = st_at St exec genesis j) ->
+    forall (d : db St Rt) (p : bool) (c hh h : N),
+      Full exec root genesis ntx PS d p c hh -> c <= hh -> h <= c ->
+      forall k, garbage h c k = false ->
+        get (apply_all d (reset_batches St Rt ntx PS unroot fx h c hh 1 d)) k
+        = node_db exec root genesis ntx PS (negb p) h h k.
+Proof. exact (@reset_exact). Qed.
+Print Assumptions C02_reset_indistinguishable.
+
+(* ... and exactly those are left behind *)
+Theorem C02_reset_leftover :
+  forall (St Rt : Type) (exec : St -> N -> St) (root : St -> Rt) (genesis : St) (ntx : N -> N) (PS : N)
+         (unroot : Rt -> St) (fx : fixes),
+    1 < PS -> (forall j, unroot (root (st_at St exec genesis j)) = st_at St exec genesis j) ->
+    forall (d : db St Rt) (p : bool) (c hh h : N),
+      Full exec root genesis ntx PS d p c hh -> c <= hh -> h <= c ->
+      forall j, h < j <= c ->
+        get (apply_all d (reset_batches St Rt ntx PS unroot fx h c hh 1 d)) (KMpt j) = Some VUnit.
+Proof. exact (@reset_leftover). Qed.
+Print Assumptions C02_reset_leftover.
